@@ -167,16 +167,17 @@ fn encode(codec: Codec, ctx_only: bool, msg: &Msg) -> Vec<u8> {
 }
 
 /// Decoded at the current virtual time.
-fn decode(codec: Codec, ctx_only: bool, bytes: &[u8]) -> Instant {
+/// `None` = the real decoder rejected the bytes (reported as an observation, never a harness crash).
+fn decode(codec: Codec, ctx_only: bool, bytes: &[u8]) -> Option<Instant> {
     match (codec, ctx_only) {
         (Codec::Json, false) => {
-            deadline_of(&Pin::new(&mut Json::<Msg, Msg>::default()).deserialize(&BytesMut::from(bytes)).unwrap())
+            Pin::new(&mut Json::<Msg, Msg>::default()).deserialize(&BytesMut::from(bytes)).ok().map(|m| deadline_of(&m))
         }
         (Codec::Bincode, false) => {
-            deadline_of(&Pin::new(&mut Bincode::<Msg, Msg>::default()).deserialize(&BytesMut::from(bytes)).unwrap())
+            Pin::new(&mut Bincode::<Msg, Msg>::default()).deserialize(&BytesMut::from(bytes)).ok().map(|m| deadline_of(&m))
         }
-        (Codec::Json, true) => serde_json::from_slice::<context::Context>(bytes).unwrap().deadline,
-        (Codec::Bincode, true) => bincode::DefaultOptions::new().deserialize::<context::Context>(bytes).unwrap().deadline,
+        (Codec::Json, true) => serde_json::from_slice::<context::Context>(bytes).ok().map(|c| c.deadline),
+        (Codec::Bincode, true) => bincode::DefaultOptions::new().deserialize::<context::Context>(bytes).ok().map(|c| c.deadline),
         (Codec::Mem, _) => unreachable!(),
     }
 }
@@ -569,7 +570,7 @@ pub fn run_script(out: &mut Out, idx: u64, rng: &mut Rng, script: Option<&[Op]>,
                         Pin::new(&mut tx).start_send(request(deadline, next_id)).unwrap();
                         goto(recv);
                         match Pin::new(&mut rx).poll_next(&mut cx) {
-                            Poll::Ready(Some(Ok(m))) => deadline_of(&m),
+                            Poll::Ready(Some(Ok(m))) => Some(deadline_of(&m)),
                             other => panic!("in-memory transport lost the request: {other:?}"),
                         }
                     } else {
@@ -577,11 +578,15 @@ pub fn run_script(out: &mut Out, idx: u64, rng: &mut Rng, script: Option<&[Op]>,
                         goto(recv);
                         decode(codec, ctx_only, &bytes)
                     };
-                    out.line(&format!(
-                        "obs deadline {} codec={} d={d} send={send} recv={recv}",
-                        since(base, seen),
-                        codec.name()
-                    ));
+                    match seen {
+                        Some(seen) => out.line(&format!(
+                            "obs deadline {} codec={} d={d} send={send} recv={recv}",
+                            since(base, seen),
+                            codec.name()
+                        )),
+                        // the monitor cannot parse this line and rejects the trace
+                        None => out.line(&format!("obs deadline DECODE-ERROR codec={} d={d} send={send} recv={recv}", codec.name())),
+                    }
                 }
                 Op::Default { recv } => {
                     out.line(&format!("op default recv={recv}"));
@@ -592,8 +597,10 @@ pub fn run_script(out: &mut Out, idx: u64, rng: &mut Rng, script: Option<&[Op]>,
                     assert!(ctx.remove("deadline").is_some(), "no deadline field to delete");
                     let bytes = serde_json::to_vec(&v).unwrap();
                     goto(recv);
-                    let seen = decode(Codec::Json, false, &bytes);
-                    out.line(&format!("obs default {} recv={recv}", since(base, seen)));
+                    match decode(Codec::Json, false, &bytes) {
+                        Some(seen) => out.line(&format!("obs default {} recv={recv}", since(base, seen))),
+                        None => out.line(&format!("obs default DECODE-ERROR recv={recv}")),
+                    }
                 }
                 Op::Chain { codec, d, start, hops, inline, pre, transit, work } => {
                     goto(start);
